@@ -413,6 +413,27 @@ class TrampHarness(VtsHarness):
         if isinstance(t1, Obj):
             self.rec(ctx, uid + "/a-new-trampoline-is-idle-and-empty", t1.fields.get("_idle") is True)
 
+    def run_singleton(self, ctx):
+        """CurrentThreadScheduler.singleton(): one scheduler per (class, thread) - the same object every time the same thread asks, another one
+        for another thread - and it is the kind whose trampoline lives in the thread-local holder (obligations below)."""
+        w = self.w = TrampWorld(self)
+        it = Interp(self.loader, ctx, w)
+        uid = f"{CFILE}::CurrentThreadScheduler.singleton"
+        it.externals["threading.Condition"] = Native("Condition", lambda it_, a, k: Opaque("condition", "cond"))
+        cls = it.module_get("reactivex.scheduler.currentthreadscheduler", "CurrentThreadScheduler")
+        single = it.module_get("reactivex.scheduler.currentthreadscheduler", "CurrentThreadSchedulerSingleton")
+        thread_t = w.thread
+        a1 = it.call(it.get_attr(cls, "singleton"), [], {})
+        a2 = it.call(it.get_attr(cls, "singleton"), [], {})
+        w.thread = Opaque("thread", "U")
+        b1 = it.call(it.get_attr(cls, "singleton"), [], {})
+        w.thread = thread_t
+        a3 = it.call(it.get_attr(cls, "singleton"), [], {})
+        self.rec(ctx, uid + "/is-a-scheduler-whose-trampoline-is-the-calling-thread's", isinstance(a1, Obj) and a1.cls is single and isinstance(b1, Obj) and b1.cls is single,
+                 detail=f"{a1!r} {b1!r}")
+        self.rec(ctx, uid + "/the-same-thread-gets-the-same-object-every-time", a1 is a2 and a1 is a3)
+        self.rec(ctx, uid + "/another-thread-gets-an-object-of-its-own", b1 is not a1)
+
     def singleton_obligations(self):
         """CurrentThreadScheduler.singleton() - the library's default scheduler - keeps its trampoline in a threading.local.
         Contract of threading.local (assumed): an attribute assigned in the subclass's __init__ exists once PER THREAD (__init__
@@ -480,6 +501,7 @@ class TrampHarness(VtsHarness):
             for m in ("schedule", "schedule_relative", "schedule_absolute"):
                 scen.append(lambda ctx, _m=m: self.run_scheduler(ctx, _m))
             scen.append(self.run_current_thread)
+            scen.append(self.run_singleton)
             for f in scen:
                 for p in explore(f):
                     self.results.extend(p.results)
